@@ -25,17 +25,23 @@ PROPS = {
     },
     "C15": {
         "module": "ZenonVerif.Props.C15",
-        "streams": [S("p2p", 2500, 60000, timeout=3000)],
+        "streams": [S("p2p", 2500, 60000, timeout=3000),
+                    S("frame", 3000, 300000, driver=False), S("disc", 3000, 300000, driver=False)],
         "rule": "p2p stream: one peer session per message against a real ProtocolManager over the mock node's ChainBridge "
                 "(chain of 530 momentums): 12 handshake variants, the boundary grid of the three request handlers "
                 "(numbers 0/1/2/H-512..H+2/2^63/2^64-512..2^64-1 x amounts 0/1/2/511/512/513/2^63/2^64-1, known/unknown/zero hashes, "
                 "GetBlocks lists of 0..2000 held/unknown hashes), then random well-formed requests (50%), wrong-shape RLP, truncated, "
                 "garbage, huge length prefixes, declared sizes around 10 MiB, unknown codes, two real 10 MiB payloads; "
-                "distinct = distinct (message class, observed reply) lines; every line is one real session replayed through the model",
+                "distinct = distinct (message class, observed reply) lines; every line is one real session replayed through the model. "
+                "frame / disc streams (monitors only, no model): rlpxFrameRW.ReadMsg on 1-3 valid frames with a bit flipped in "
+                "header / header MAC / body / frame MAC, truncated, re-ordered, replayed, with a byte inserted, or garbage; "
+                "discover.decodePacket on signed ping/pong/findnode/neighbors packets with a bit flipped in hash / signature / data, "
+                "truncated, extended, garbage, and re-hashed corrupted bodies",
         "partial": "proved: reply caps, totality and size gate of the handler MODEL (two clauses only under premises — F7a/F7b, found "
                    "again by the monitor on the real handler). Not proved, checked by differential run only: survival on every byte "
                    "string (RLP library, downloader/fetcher goroutines), allocation inside rlp, liveness of the message loop; "
-                   "rlpx frame MAC/size and discovery packet checks are not modelled in this round",
+                   "rlpx frame MAC/size and discovery packet checks have no model/theorem (T4 frame_reject not built): they are "
+                   "exercised by the monitor-only streams frame and disc",
         "assumptions": ["go-ethereum rlp decodes as specified (the stream classifies each payload with the same decoder the handler uses)",
                         "the chain is abstracted to its height; hashes are identified with the height of the momentum that carries them"],
         "trusted_base": ["p2p.MsgPipe session harness (probe message delimits the node's answer)"],
